@@ -290,7 +290,7 @@ fn gen_file(rng: &mut Rng, spaces: bool) -> Vec<u8> {
 }
 
 pub fn run(args: &Args) {
-    let mut sink = Sink::new("C19", &args.out, &["Model.Cli"], args.seed, &args.tier);
+    let mut sink = Sink::new("C19", &args.out, &["Model.Cli", "Model.CliColumns"], args.seed, &args.tier);
     sink.rule("python: sessions {create(mode, fields subset, projection); 1..6 ops of tokenize(text, per-call mode, out= reuse) / Morpheme.split(mode, out=, add_single) / Dictionary.lookup} run in the sudachipy module built from the working tree and mirrored on the Rust library, compared field by field (surface, raw_surface, begin/end with text[begin:end] == raw_surface, POS, forms, ids, split results); CLI: multi-line files (blank lines, CRLF, no final newline) x modes x {-w, -a, default} x --split-sentences {yes,no,only}, stdout compared byte for byte with the library's morphemes in the documented format; Coq: the line-handling and surface-only-output models against what the tool demonstrably analysed/printed; non-trivial = at least one non-empty text; distinct by content");
     let mut rng = Rng::new(args.seed);
     let res = format!("{}/python/tests/resources", repo());
@@ -536,6 +536,39 @@ pub fn run(args: &Args) {
             let term = format!("check_wakati {} {}", clist(ss.iter().map(|s| cbytes(s.as_bytes()))), cbytes(&o.stdout));
             sink.tag("cli:wakati-model");
             sink.case(term, json!({"kind": "cli", "file": format!("{}\n", t), "file_bytes": format!("{}\n", t).as_bytes(), "mode": "C", "wakati": true, "all": false, "split": "no"}), !t.is_empty());
+        }
+        // column output: the Coq model of Simple::write over the library's fields must print what the tool printed, and
+        // reading the tool's output back must give the columns of every morpheme
+        if t.contains('\n') {
+            continue;
+        }
+        let all = rng.chance(1, 2);
+        let mut cmd = Command::new(&cli);
+        cmd.arg("-r").arg(&cfg_path).arg("-p").arg(&res).arg("--split-sentences").arg("no");
+        if all {
+            cmd.arg("-a");
+        }
+        if let Ok(o) = cmd.arg(&inp).output() {
+            let ms: Vec<String> = ml
+                .iter()
+                .map(|m| {
+                    format!(
+                        "(Build_morph {} {} {} {} {} {} {} {})",
+                        cbytes(m.surface().as_bytes()),
+                        clist(m.part_of_speech().iter().map(|p| cbytes(p.as_bytes()))),
+                        cbytes(m.normalized_form().as_bytes()),
+                        cbytes(m.dictionary_form().as_bytes()),
+                        cbytes(m.reading_form().as_bytes()),
+                        cz(m.dictionary_id() as i64),
+                        clist(m.synonym_group_ids().iter().map(|x| cn(*x as u64))),
+                        cbool(m.is_oov())
+                    )
+                })
+                .collect();
+            let term = format!("check_simple {} {} {}", cbool(all), clist(ms.into_iter()), cbytes(&o.stdout));
+            sink.tag("cli:columns-model");
+            sink.tag(if all { "cli:columns-model:all" } else { "cli:columns-model:basic" });
+            sink.case(term, json!({"kind": "cli", "file": format!("{}\n", t), "file_bytes": format!("{}\n", t).as_bytes(), "mode": "C", "wakati": false, "all": all, "split": "no"}), !t.is_empty());
         }
     }
     sink.finish();
